@@ -987,7 +987,10 @@ def tie_mftstate(case):
                 t.bad.append(('tie-mftstate-switch', '%s, component %d: the precomputed matrices were rebuilt although the precision did not change' % (what, ci)))
             ds.append(0 if st['dtype'] == 'complex64' else 1)
     t.lines.append('C01 mftstate %d %d %d [%s]' % (int(pre), int(alloc), ndim, ','.join(str(d) for d in ds)))
-    observed = ['%d%d/%s/%s' % (int(r['rebuilt']), int(r['realloc']), show(r['use']), show(r['left'])) for r in log]
+    def usable(r):
+        u = r['use']
+        return int(all(M is not None and str(M.dtype) == r['dtype'] for M in u['Ms']) and (ndim != 2 or (u['ia'] is not None and str(u['ia'].dtype) == r['dtype'])))
+    observed = ['%d%d/%s/%s/%d' % (int(r['rebuilt']), int(r['realloc']), show(r['use']), show(r['left']), usable(r)) for r in log]
 
     def check(rs):
         r = rs[0]
